@@ -263,7 +263,7 @@ def key_loop(repo, run, rule, rule_new=None):
             ok(rule, e, desc, 'newer value attached under a new key')
             if rule_new:
                 pre = any(c in before and (c.recv.text if c.recv is not None else '') == V + '.ayns' and c.args and c.args[0].text == KP
-                         and (c.kw.get('include_self') is None or c.kw['include_self'].const is True) and len(c.args) < 4 for c in checks)
+                         and (c.kw.get('include_self') is None or c.kw['include_self'].const is True) for c in checks)
                 if pre:
                     ok(rule_new, e, 'set_child(key, value) [new key]', 'value.ayns._require_all_new(path + [key]) precedes')
                 else:
